@@ -32,4 +32,14 @@ Spec == Init /\ [][Next]_vars
 \* every completed call's output is a function of (voices, condition, labels)
 Deterministic == \A a, b \in outs : a[1] = b[1] => a[2] = b[2]
 EngineUntouched == engine = "settings"
+\* ---- progress and independence: no call waits for another thread (there is no lock to wait on)
+Work(t) == Frame(t) \/ End(t)
+FairSpec == Spec /\ \A t \in Threads : WF_vars(Work(t))
+\* with each thread scheduled fairly on its own work, every started call returns - whatever the others do
+CallsReturn == \A t \in Threads : (pc[t] = "busy") ~> (pc[t] = "idle")
+\* a step changes the private state of at most one thread
+NoCrossTalk == [][\A t \in Threads : (pc'[t] # pc[t] \/ loc'[t] # loc[t]) =>
+                     \A o \in Threads \ {t} : pc'[o] = pc[o] /\ loc'[o] = loc[o]]_vars
+\* results are only ever added
+OutsGrow == [][outs \subseteq outs']_vars
 =============================================================================
